@@ -89,7 +89,7 @@ HLconvert(int32 aid, int32 block_length, int32 number_blocks)
 
 /* ------------------------------------------------------------------ representation predicates */
 #define FREC_WF(f)                                                                                           \
-    ((f)->refcount >= 1 && (f)->f_end_off >= 0 && (f)->f_cur_off >= 0 && ((f)->cache == 0 || (f)->cache == 1) && \
+    ((f)->refcount >= 1 && (f)->f_end_off >= 0 && (f)->f_end_off < INT32_MAX && (f)->f_cur_off >= 0 && ((f)->cache == 0 || (f)->cache == 1) && \
      (int)(f)->last_op >= 0 && (int)(f)->last_op <= 3)
 /* seek-cache coherence between the file record and the OS stream (ghost disk) */
 #define COH(f)                                                                                               \
@@ -174,6 +174,144 @@ int32 Hread(int32 access_id, int32 length, void *data)
     /* without a fault a valid request succeeds */
     __CPROVER_ensures((access_id == g_aid && data != NULL && length >= 0 && g_arec->new_elem != TRUE &&
                        !g_io_failed && !g_htp_failed) ==> __CPROVER_return_value != FAIL);
+
+
+/* C01: Hseek on an ordinary element.  TGT = base(origin) + offset as a mathematical integer. */
+#define SEEK_BASE(origin, posn) ((origin) == DF_START ? (int64_t)0 : (origin) == DF_CURRENT ? (int64_t)(posn) : (int64_t)g_dd_len)
+#define SEEK_V (access_id == g_aid && (origin == DF_START || origin == DF_CURRENT || origin == DF_END))
+#define SEEK_T (SEEK_BASE(origin, __CPROVER_old(g_arec->posn)) + offset)
+int Hseek(int32 access_id, int32 offset, int origin)
+    __CPROVER_requires(ENV_WF && access_id != g_fid)
+    __CPROVER_requires(g_arec->special == 0 || g_arec->special_func == &h4v_sp_funcs)
+    __CPROVER_assigns(g_arec->posn, g_arec->appendable, g_arec->special, g_arec->special_func, g_hlconvert_n, g_special_n, g_htp_failed)
+    __CPROVER_ensures(!SEEK_V ==> __CPROVER_return_value == FAIL)
+    /* a special element is handled by its own seek function and nothing else */
+    __CPROVER_ensures((SEEK_V && __CPROVER_old(g_arec->special)) ==>
+                      (g_special_n == __CPROVER_old(g_special_n) + 1 && g_hlconvert_n == __CPROVER_old(g_hlconvert_n) &&
+                       g_arec->posn == __CPROVER_old(g_arec->posn) && g_arec->appendable == __CPROVER_old(g_arec->appendable) &&
+                       g_htp_failed == __CPROVER_old(g_htp_failed)))
+    /* ordinary element: position is exactly the requested one on success, unchanged on failure */
+    __CPROVER_ensures(!__CPROVER_old(g_arec->special) ==> (__CPROVER_return_value == SUCCEED || __CPROVER_return_value == FAIL))
+    __CPROVER_ensures((SEEK_V && !__CPROVER_old(g_arec->special) && __CPROVER_return_value == SUCCEED) ==> (int64_t)g_arec->posn == SEEK_T)
+    __CPROVER_ensures((!__CPROVER_old(g_arec->special) && __CPROVER_return_value == FAIL) ==> g_arec->posn == __CPROVER_old(g_arec->posn))
+    /* a target outside the element is refused (appendable elements may seek past the end) */
+    __CPROVER_ensures((SEEK_V && !__CPROVER_old(g_arec->special) && !g_htp_failed && SEEK_T != __CPROVER_old(g_arec->posn) &&
+                       (SEEK_T < 0 || SEEK_T > INT32_MAX || (!__CPROVER_old(g_arec->appendable) && SEEK_T > g_dd_len))) ==>
+                      __CPROVER_return_value == FAIL)
+    /* a target inside the element is always accepted, without promotion */
+    __CPROVER_ensures((SEEK_V && !__CPROVER_old(g_arec->special) && !g_htp_failed && SEEK_T >= 0 && SEEK_T < g_dd_len) ==>
+                      (__CPROVER_return_value == SUCCEED && g_hlconvert_n == __CPROVER_old(g_hlconvert_n)))
+    /* promotion to linked blocks is attempted only for an appendable element that is not last in the file */
+    __CPROVER_ensures(g_hlconvert_n != __CPROVER_old(g_hlconvert_n) ==>
+                      (__CPROVER_old(g_arec->appendable) && (int64_t)g_dd_off + g_dd_len != g_frec->f_end_off && SEEK_T >= g_dd_len));
+
+int32 Htell(int32 access_id)
+    __CPROVER_requires(ENV_WF && access_id != g_fid)
+    __CPROVER_assigns()
+    __CPROVER_ensures(__CPROVER_return_value == (access_id == g_aid ? g_arec->posn : FAIL));
+
+/* C01/C14/C17/C20: Hwrite */
+#define WR_V (access_id == g_aid && (g_arec->access & DFACC_WRITE) && data != NULL)
+#define WR_ORD (!__CPROVER_old(g_arec->special))
+#define WR_END ((int64_t)__CPROVER_old(g_arec->posn) + length)
+int32 Hwrite(int32 access_id, int32 length, const void *data)
+    __CPROVER_requires(ENV_WF && access_id != g_fid)
+    __CPROVER_requires(g_arec->special == 0 || g_arec->special_func == &h4v_sp_funcs)
+    __CPROVER_requires(g_arec->new_elem != TRUE) /* first write of a new element: see Hsetlength */
+    __CPROVER_requires(g_cap >= 0 && length <= g_cap)
+    __CPROVER_assigns(g_arec->posn, g_arec->appendable, g_arec->special, g_arec->special_func, g_hlconvert_n, g_special_n,
+                      g_htp_failed, g_dd_len, g_upd_n, g_frec->f_cur_off, g_frec->last_op, g_frec->f_end_off, g_fpos, g_pos_valid,
+                      g_io_failed, g_seek_n, g_last_stdio, g_wr_n, g_wr_off, g_wr_len, g_min_wr_off, g_off_written, g_off_byte)
+    /* refused requests write nothing and move nothing */
+    __CPROVER_ensures(!WR_V ==> (__CPROVER_return_value == FAIL && g_wr_n == __CPROVER_old(g_wr_n) &&
+                                 g_special_n == __CPROVER_old(g_special_n) && g_arec->posn == __CPROVER_old(g_arec->posn) &&
+                                 g_dd_len == __CPROVER_old(g_dd_len)))
+    /* a special element is written by its own write function and nothing else */
+    __CPROVER_ensures((WR_V && !WR_ORD) ==> (g_special_n == __CPROVER_old(g_special_n) + 1 && g_wr_n == __CPROVER_old(g_wr_n) &&
+                                            g_hlconvert_n == __CPROVER_old(g_hlconvert_n) && g_arec->posn == __CPROVER_old(g_arec->posn) &&
+                                            g_dd_len == __CPROVER_old(g_dd_len) && g_frec->f_end_off == __CPROVER_old(g_frec->f_end_off) &&
+                                            g_htp_failed == __CPROVER_old(g_htp_failed) && g_io_failed == __CPROVER_old(g_io_failed)))
+    __CPROVER_ensures((WR_ORD && length <= 0) ==> (__CPROVER_return_value == FAIL && g_wr_n == __CPROVER_old(g_wr_n)))
+    /* C20: a write that would end beyond 2^31-1 bytes is refused, nothing written */
+    __CPROVER_ensures((WR_ORD && WR_END > INT32_MAX) ==> (__CPROVER_return_value == FAIL && g_wr_n == __CPROVER_old(g_wr_n) &&
+                                                         g_dd_len == __CPROVER_old(g_dd_len)))
+    /* a non-appendable element never grows; writing past its end fails */
+    __CPROVER_ensures((WR_ORD && !__CPROVER_old(g_arec->appendable) && WR_END > __CPROVER_old(g_dd_len)) ==>
+                      (__CPROVER_return_value == FAIL && g_wr_n == __CPROVER_old(g_wr_n)))
+    __CPROVER_ensures((WR_ORD && __CPROVER_return_value == FAIL) ==> g_arec->posn == __CPROVER_old(g_arec->posn))
+    /* success without promotion: all bytes, at the right place, bookkeeping exact */
+    __CPROVER_ensures((WR_ORD && __CPROVER_return_value != FAIL && g_hlconvert_n == __CPROVER_old(g_hlconvert_n)) ==>
+                      (__CPROVER_return_value == length && g_wr_n == __CPROVER_old(g_wr_n) + 1 && g_wr_len == length &&
+                       (g_io_failed || g_wr_off == (long)g_dd_off + __CPROVER_old(g_arec->posn)) &&
+                       g_arec->posn == __CPROVER_old(g_arec->posn) + length &&
+                       g_dd_len == (WR_END > __CPROVER_old(g_dd_len) ? (int32)WR_END : __CPROVER_old(g_dd_len)) &&
+                       (int64_t)g_dd_off + g_dd_len <= g_frec->f_end_off))
+    /* in-place growth only for the last element of the file (otherwise promotion is attempted), never past 2^31-1 */
+    __CPROVER_ensures((WR_ORD && g_dd_len != __CPROVER_old(g_dd_len)) ==>
+                      ((int64_t)g_dd_off + __CPROVER_old(g_dd_len) == __CPROVER_old(g_frec->f_end_off) &&
+                       g_hlconvert_n == __CPROVER_old(g_hlconvert_n) && (int64_t)g_dd_off + WR_END <= INT32_MAX))
+    __CPROVER_ensures(g_hlconvert_n != __CPROVER_old(g_hlconvert_n) ==>
+                      (WR_ORD && __CPROVER_old(g_arec->appendable) && WR_END > __CPROVER_old(g_dd_len) &&
+                       (int64_t)g_dd_off + __CPROVER_old(g_dd_len) != __CPROVER_old(g_frec->f_end_off)))
+    /* C16 */
+    __CPROVER_ensures((WR_ORD && ((g_io_failed && !__CPROVER_old(g_io_failed)) || g_htp_failed)) ==> __CPROVER_return_value == FAIL);
+
+int32 Htrunc(int32 aid, int32 trunc_len)
+    __CPROVER_requires(ENV_WF && aid != g_fid)
+    __CPROVER_assigns(g_arec->posn, g_dd_len, g_upd_n, g_htp_failed)
+    __CPROVER_ensures((aid != g_aid || !(g_arec->access & DFACC_WRITE)) ==> __CPROVER_return_value == FAIL)
+    __CPROVER_ensures(__CPROVER_return_value == FAIL ==>
+                      (g_dd_len == __CPROVER_old(g_dd_len) && g_arec->posn == __CPROVER_old(g_arec->posn)))
+    __CPROVER_ensures(__CPROVER_return_value != FAIL ==>
+                      (__CPROVER_return_value == trunc_len && trunc_len >= 0 && trunc_len < __CPROVER_old(g_dd_len) &&
+                       g_dd_len == trunc_len &&
+                       g_arec->posn == (__CPROVER_old(g_arec->posn) > trunc_len ? trunc_len : __CPROVER_old(g_arec->posn))))
+    __CPROVER_ensures((aid == g_aid && (g_arec->access & DFACC_WRITE) && !g_htp_failed && trunc_len >= 0 &&
+                       trunc_len < __CPROVER_old(g_dd_len)) ==> __CPROVER_return_value != FAIL)
+    /* a negative or not-smaller length is refused */
+    __CPROVER_ensures((trunc_len < 0 || trunc_len >= __CPROVER_old(g_dd_len)) ==> __CPROVER_return_value == FAIL);
+
+/* C01/C02/C17/C20: space is handed out only at the end of the file, which only grows, never past 2^31-1 */
+int32 HPgetdiskblock(filerec_t *file_rec, int32 block_size, int moveto)
+    __CPROVER_requires(file_rec == g_frec && FREC_WF(file_rec) && COH(file_rec) && g_file_writable == WRITABLE(file_rec) &&
+                       WRITABLE(file_rec))
+    __CPROVER_requires(g_add_session == 0 || g_L <= file_rec->f_end_off)
+    __CPROVER_assigns(file_rec->f_cur_off, file_rec->last_op, file_rec->f_end_off, file_rec->dirty, g_fpos, g_pos_valid,
+                      g_io_failed, g_seek_n, g_last_stdio, g_wr_n, g_wr_off, g_wr_len, g_min_wr_off, g_off_written, g_off_byte)
+    __CPROVER_ensures((file_rec == NULL || block_size < 0) ==> __CPROVER_return_value == FAIL)
+    __CPROVER_ensures((file_rec != NULL && __CPROVER_return_value != FAIL) ==>
+                      (__CPROVER_return_value == __CPROVER_old(file_rec->f_end_off) &&
+                       (int64_t)file_rec->f_end_off == (int64_t)__CPROVER_old(file_rec->f_end_off) + block_size))
+    /* C20: a block that would end beyond 2^31-1 is refused and the end of file stays */
+    __CPROVER_ensures((file_rec != NULL && block_size >= 0 && (int64_t)__CPROVER_old(file_rec->f_end_off) + block_size > INT32_MAX) ==>
+                      (__CPROVER_return_value == FAIL && file_rec->f_end_off == __CPROVER_old(file_rec->f_end_off)))
+    __CPROVER_ensures(file_rec != NULL ==> FREC_WF(file_rec))
+    __CPROVER_ensures((file_rec != NULL && __CPROVER_return_value == FAIL) ==> file_rec->f_end_off == __CPROVER_old(file_rec->f_end_off))
+    /* C17: nothing is written below the old end of file; with caching nothing is written at all */
+    __CPROVER_ensures(g_wr_n != __CPROVER_old(g_wr_n) ==>
+                      (!__CPROVER_old(file_rec->cache) && (g_io_failed || g_wr_off >= __CPROVER_old(file_rec->f_end_off))))
+    __CPROVER_ensures((file_rec != NULL && ((g_io_failed && !__CPROVER_old(g_io_failed)))) ==> __CPROVER_return_value == FAIL);
+
+int Hsetlength(int32 aid, int32 length)
+    __CPROVER_requires(ENV_WF && aid != g_fid && WRITABLE(g_frec))
+    __CPROVER_assigns(g_arec->new_elem, g_dd_off, g_dd_len, g_upd_n, g_htp_failed, g_frec->f_cur_off, g_frec->last_op, g_frec->f_end_off,
+                      g_frec->dirty, g_fpos, g_pos_valid, g_io_failed, g_seek_n, g_last_stdio, g_wr_n, g_wr_off, g_wr_len, g_min_wr_off,
+                      g_off_written, g_off_byte)
+    __CPROVER_ensures(__CPROVER_return_value == SUCCEED || __CPROVER_return_value == FAIL)
+    __CPROVER_ensures((aid != g_aid || __CPROVER_old(g_arec->new_elem) != TRUE || length < 0) ==> __CPROVER_return_value == FAIL)
+    __CPROVER_ensures(__CPROVER_return_value == SUCCEED ==>
+                      (g_dd_off == __CPROVER_old(g_frec->f_end_off) && g_dd_len == length && g_arec->new_elem == FALSE &&
+                       (int64_t)g_frec->f_end_off == (int64_t)g_dd_off + g_dd_len))
+    __CPROVER_ensures(((g_io_failed && !__CPROVER_old(g_io_failed)) || g_htp_failed) ==> __CPROVER_return_value == FAIL);
+
+int HIextend_file(filerec_t *file_rec)
+    __CPROVER_requires(file_rec == g_frec && FREC_WF(file_rec) && COH(file_rec) && g_file_writable == WRITABLE(file_rec) && WRITABLE(file_rec))
+    __CPROVER_requires(g_add_session == 0 || g_L <= file_rec->f_end_off)
+    __CPROVER_assigns(file_rec->f_cur_off, file_rec->last_op, g_fpos, g_pos_valid, g_io_failed, g_seek_n, g_last_stdio, g_wr_n, g_wr_off,
+                      g_wr_len, g_min_wr_off, g_off_written, g_off_byte)
+    __CPROVER_ensures((g_io_failed && !__CPROVER_old(g_io_failed)) ==> __CPROVER_return_value == FAIL)
+    __CPROVER_ensures(__CPROVER_return_value == SUCCEED ==>
+                      (g_wr_n == __CPROVER_old(g_wr_n) + 1 && g_wr_len == 1 && (g_io_failed || g_wr_off == file_rec->f_end_off)));
 
 #ifdef H4V_NATIVE
 #include "h4v_native_wrap.h"
@@ -302,4 +440,104 @@ h_Hread(void)
     H4V_COVER(r == 0, "Hread at end");
     H4V_COVER(r == FAIL && g_io_failed, "Hread fault");
     H4V_CANARY("Hread end");
+}
+
+void
+h_Hseek(void)
+{
+    mk_env(0);
+    g_htp_may_fail = 1;
+    H4V_ND(int32, access_id);
+    H4V_ND(int32, offset);
+    H4V_ND(int, origin);
+    int old_hl = g_hlconvert_n;
+    int r = Hseek(access_id, offset, origin);
+    H4V_COVER(r == SUCCEED && g_hlconvert_n == old_hl && g_arec->posn > g_dd_len, "Hseek past end of last element");
+    H4V_COVER(r == SUCCEED && g_hlconvert_n != old_hl, "Hseek promoted");
+    H4V_COVER(r == FAIL && g_hlconvert_n != old_hl, "Hseek promotion failed");
+    H4V_COVER(r == FAIL && access_id == g_aid && !g_htp_failed, "Hseek refused");
+    H4V_CANARY("Hseek end");
+}
+
+void
+h_Htell(void)
+{
+    mk_env(0);
+    H4V_ND(int32, access_id);
+    int32 r = Htell(access_id);
+    H4V_COVER(r == FAIL, "Htell bad id");
+    H4V_CANARY("Htell end");
+}
+
+void
+h_Hwrite(void)
+{
+    mk_env(1);
+    g_htp_may_fail = 1;
+    H4V_ND(int32, access_id);
+    H4V_ND(int32, length);
+    H4V_ND(int, null_data);
+    H4V_ASSUME(g_cap >= 0 && g_cap <= 4096);
+    H4V_ND_BUF(uint8, buf, g_cap, 8);
+    int32 old_len = g_dd_len;
+    int old_hl = g_hlconvert_n;
+    int32 r = Hwrite(access_id, length, null_data ? NULL : buf);
+    H4V_COVER(r > 0 && g_dd_len > old_len, "Hwrite grew last element in place");
+    H4V_COVER(r > 0 && g_dd_len == old_len && g_hlconvert_n == old_hl, "Hwrite inside element");
+    H4V_COVER(g_hlconvert_n != old_hl, "Hwrite promotion attempted");
+    H4V_COVER(r == FAIL && g_io_failed, "Hwrite fault");
+    H4V_CANARY("Hwrite end");
+}
+
+void
+h_Htrunc(void)
+{
+    mk_env(0);
+    g_htp_may_fail = 1;
+    H4V_ND(int32, aid);
+    H4V_ND(int32, trunc_len);
+    int32 r = Htrunc(aid, trunc_len);
+    H4V_COVER(r != FAIL && g_arec->posn == trunc_len, "Htrunc moved position back");
+    H4V_COVER(r == FAIL && aid == g_aid && !g_htp_failed, "Htrunc refused");
+    H4V_CANARY("Htrunc end");
+}
+
+void
+h_HPgetdiskblock(void)
+{
+    mk_env(1);
+    H4V_ND(int32, block_size);
+    H4V_ND(int, moveto);
+    H4V_HAVOC(int, g_add_session);
+    H4V_HAVOC(long, g_L);
+    int32 r = HPgetdiskblock(g_frec, block_size, moveto);
+    H4V_COVER(r != FAIL && g_wr_n == 1, "HPgetdiskblock wrote end marker");
+    H4V_COVER(r != FAIL && g_wr_n == 0 && block_size > 0, "HPgetdiskblock cached");
+    H4V_COVER(r == FAIL && g_io_failed, "HPgetdiskblock fault");
+    H4V_CANARY("HPgetdiskblock end");
+}
+
+void
+h_Hsetlength(void)
+{
+    mk_env(1);
+    g_htp_may_fail = 1;
+    H4V_ND(int32, aid);
+    H4V_ND(int32, length);
+    int r = Hsetlength(aid, length);
+    H4V_COVER(r == SUCCEED, "Hsetlength ok");
+    H4V_COVER(r == FAIL && g_io_failed, "Hsetlength fault");
+    H4V_CANARY("Hsetlength end");
+}
+
+void
+h_HIextend_file(void)
+{
+    mk_env(1);
+    H4V_HAVOC(int, g_add_session);
+    H4V_HAVOC(long, g_L);
+    int r = HIextend_file(g_frec);
+    H4V_COVER(r == SUCCEED, "HIextend_file ok");
+    H4V_COVER(r == FAIL, "HIextend_file fault");
+    H4V_CANARY("HIextend_file end");
 }
